@@ -43,7 +43,7 @@ class Check(PropCheck):
             names = ['t%d' % i for i in range(n)]
             pm = 0.3 if kind in ('stats', 'resolve', 'collapse', 'compare') else 0.0
             t = gen.rand_tree(rng, n, mode, p_multi=rng.choice([0, pm]) if kind != 'resolve' else 0.6,
-                              p_unary=0.0, internal_names=rng.choice([0, 0.5]), names=names,
+                              p_unary=(rng.choice([0.0, 0.2]) if kind == 'stats' else 0.0), internal_names=rng.choice([0, 0.5]), names=names,
                               root_len=(kind == 'collapse' and rng.random() < 0.5))
             if kind == 'stats' and rng.random() < 0.3:
                 gen.assign_lengths(t, rng, 'none')
@@ -101,7 +101,19 @@ class Check(PropCheck):
             others = []
             for q in range(rng.randint(1, 3)):
                 t2 = nni_neighbour(t, rng)
-                if rng.random() < 0.4:
+                poly = [x for x in t.nodes() if len(x.children) >= 3]
+                if poly and rng.random() < 0.5:
+                    # the compared tree is a strict refinement of the reference (the reference is a contraction of it): every split of
+                    # the reference occurs in the other tree, which has extra ones
+                    t2 = t.copy()
+                    for _ in range(rng.randint(1, 2)):
+                        cand = [x for x in t2.nodes() if len(x.children) >= 3]
+                        if not cand:
+                            break
+                        x = rng.choice(cand)
+                        ci = rng.randrange(len(x.children) - 1)
+                        x.children = x.children[:ci] + [gen.T(children=x.children[ci:ci + 2])] + x.children[ci + 2:]
+                elif rng.random() < 0.4:
                     # contract an internal branch of the compared tree: different numbers of bipartitions
                     inner = [x for x in t2.nodes() if any(c.children for c in x.children)]
                     if inner:
@@ -120,11 +132,18 @@ class Check(PropCheck):
             lens = [x.length for x in t.nodes() if x.length is not None]
             # boundary values: a threshold exactly equal to an existing branch length (strictly-shorter test)
             # (exact dyadic trees only: for inexact decimals the model keeps the decimal value and the crate its f64 rounding)
-            thr = rng.choice(lens) if (lens and job['mode'] == 'exact' and rng.random() < 0.6) else rng.choice([0.0, 0.3, 1.0, 2.5, 100.0])
-            if lens and job['mode'] == 'exact' and rng.random() < 0.5:
-                # one ulp above / below an existing length: "strictly shorter" must not be blurred by an absolute epsilon
-                import math
-                thr = rng.choice([math.nextafter(thr, math.inf), math.nextafter(thr, -math.inf) if thr > 0 else thr])
+            import math
+            thr = rng.choice([0.0, 0.3, 1.0, 2.5, 100.0])
+            r = rng.random()
+            if lens and job['mode'] == 'exact' and r < 0.75:
+                pos = sorted(x for x in lens if x > 0)
+                l = rng.choice(lens) if (not pos or rng.random() < 0.5) else pos[0]      # often the shortest branch (one ulp of a length below 2 is < 2.2e-16)
+                if r < 0.25:
+                    thr = l                                   # equal: strictly-shorter test
+                elif r < 0.6:
+                    thr = math.nextafter(l, math.inf)         # one ulp above: must collapse ("shorter" must not be blurred by an absolute epsilon)
+                else:
+                    thr = math.nextafter(l, -math.inf) if l > 0 else l
             ex = rng.random() < 0.5
             args = ['collapse', tf, repr(thr)] + (['-e'] if ex else [])
             info['thr'] = thr; info['ex'] = ex
